@@ -14,9 +14,375 @@ use verif_harness::*;
 // ------------------------------------------------------------------------------------- CLI layer
 mod cli {
     use super::*;
+    use nitrogql_ast::operation_ext::ExecutableDefinitionExt as XD;
+    use nitrogql_ast::type_system::{TypeDefinition as TDef, TypeExtension as TExt, TypeSystemDefinitionOrExtension as TD};
+    use nitrogql_parser::{parse_operation_document, parse_type_system_document};
+    use std::fs;
+    use std::process::Command;
+
     pub struct CliRun { pub cases: Vec<(String, Value)>, pub stats: Vec<(String, u64)>, pub direct_failures: Vec<Value> }
-    pub fn run_projects(_rng: &mut Rng, _bin: &Path, _work: &Path, _n: usize, _thorough: bool) -> CliRun {
-        CliRun { cases: vec![], stats: vec![], direct_failures: vec![] }
+
+    /// file contents as a Coq term: a string literal holding the UTF-8 bytes, decoded by Corr.u8
+    fn coq_u8(t: &str) -> String {
+        let mut o = String::with_capacity(t.len() + 8);
+        o.push_str("(u8 \"");
+        for c in t.chars() { if c == '"' { o.push_str("\"\""); } else { o.push(c); } }
+        o.push_str("\")");
+        o
+    }
+
+    #[derive(Clone)]
+    struct GField { name: String, ty: String, list: bool, nonnull: bool, arg: Option<(String, String)>, object: bool }
+    #[derive(Clone)]
+    struct GObj { name: String, fields: Vec<GField>, node: bool }
+
+    fn ty_str(f: &GField) -> String {
+        let inner = if f.list { format!("[{}!]", f.ty) } else { f.ty.clone() };
+        format!("{}{}", inner, if f.nonnull { "!" } else { "" })
+    }
+
+    struct Proj {
+        schema_files: Vec<(String, String)>,        // (relative path, text)
+        op_files: Vec<(String, String)>,
+        imported_used: BTreeMap<String, Vec<(String, String)>>,   // op file -> [(fragment name, defining file)] spread in it and imported
+        has_astral: bool,
+        config: String,
+        mode: &'static str,
+    }
+
+    fn lower(sx: &str) -> String { let mut c = sx.chars(); match c.next() { Some(f) => f.to_lowercase().collect::<String>() + c.as_str(), None => String::new() } }
+
+    fn gen_desc(rng: &mut Rng, astral: bool) -> Option<String> {
+        match rng.below(6) {
+            0 => Some("\"a short description\"".into()),
+            1 => Some("\"\"\"\n  A block description\n  over two lines, with a \\\"\"\" inside\n  \"\"\"".into()),
+            2 if astral => Some("\"with emoji 😀 inside\"".into()),
+            _ => None,
+        }
+    }
+
+    fn gen_project(rng: &mut Rng, k: usize) -> Proj {
+        let astral = rng.chance(1, 9);
+        // ---- schema model
+        let pool = ["User", "Post", "Comment", "Tag", "Team"];
+        let nobj = rng.range(2, 5);
+        let names: Vec<String> = pool[..nobj].iter().map(|x| x.to_string()).collect();
+        let has_enum = rng.chance(3, 4); let has_scalar = rng.chance(1, 2); let has_input = rng.chance(1, 2); let has_union = rng.chance(1, 2);
+        let mut objs: Vec<GObj> = vec![];
+        for (i, n) in names.iter().enumerate() {
+            let mut fields = vec![GField { name: "id".into(), ty: "ID".into(), list: false, nonnull: true, arg: None, object: false }];
+            let scal: Vec<(&str, &str, bool)> = vec![("name", "String", false), ("title", "String", true), ("count", "Int", false), ("active", "Boolean", true)];
+            for (fname, t, nn) in scal { if rng.chance(1, 2) { fields.push(GField { name: fname.into(), ty: t.into(), list: false, nonnull: nn, arg: None, object: false }); } }
+            if has_enum && rng.chance(1, 2) { fields.push(GField { name: "role".into(), ty: "Role".into(), list: false, nonnull: true, arg: None, object: false }); }
+            if has_scalar && rng.chance(1, 2) { fields.push(GField { name: "created".into(), ty: "Date".into(), list: false, nonnull: false, arg: None, object: false }); }
+            for (j, m) in names.iter().enumerate() {
+                if i != j && rng.chance(1, 3) {
+                    let list = rng.chance(1, 2);
+                    fields.push(GField { name: if list { format!("{}s", lower(m)) } else { format!("the{}", m) }, ty: m.clone(), list, nonnull: list || rng.chance(1, 2),
+                                         arg: if list && rng.chance(1, 3) { Some(("first".into(), "Int".into())) } else { None }, object: true });
+                }
+            }
+            objs.push(GObj { name: n.clone(), fields, node: rng.chance(1, 2) });
+        }
+        let mut qfields = vec![];
+        for o in &objs {
+            qfields.push(GField { name: format!("{}s", lower(&o.name)), ty: o.name.clone(), list: true, nonnull: true, arg: Some(("first".into(), "Int".into())), object: true });
+            if rng.chance(1, 2) { qfields.push(GField { name: lower(&o.name), ty: o.name.clone(), list: false, nonnull: false, arg: Some(("id".into(), "ID!".into())), object: true }); }
+        }
+        let query = GObj { name: "Query".into(), fields: qfields, node: false };
+        let has_mutation = rng.chance(1, 3);
+        let mutation = GObj { name: "Mutation".into(), fields: vec![GField { name: format!("touch{}", objs[0].name), ty: objs[0].name.clone(), list: false, nonnull: true, arg: Some(("id".into(), "ID!".into())), object: true }], node: false };
+
+        // ---- schema text, split over files
+        let file_pool = ["schema/a.graphql", "schema/zz_last.graphql", "schema/m/types.graphql", "schema/b.graphql"];
+        let nfiles = rng.range(1, 3);
+        let mut order: Vec<usize> = (0..file_pool.len()).collect(); rng.shuffle(&mut order);
+        let chosen: Vec<&str> = order[..nfiles].iter().map(|i| file_pool[*i]).collect();
+        let mut texts: Vec<String> = vec![String::new(); nfiles];
+        let mut has_astral = false;
+        let render_obj = |rng: &mut Rng, o: &GObj, kw: &str, has_astral: &mut bool| -> String {
+            let mut t = String::new();
+            if let Some(d) = gen_desc(rng, astral) { t.push_str(&d); t.push('\n'); }
+            t.push_str(kw); t.push(' '); t.push_str(&o.name);
+            if o.node && kw == "type" { t.push_str(" implements Node"); }
+            t.push_str(if rng.chance(1, 4) { "\n{\n" } else { " {\n" });
+            for f in &o.fields {
+                if rng.chance(1, 8) { t.push_str("  # a comment line\n"); }
+                t.push_str(if rng.chance(1, 6) { "    " } else { "  " });
+                if astral && rng.chance(1, 3) { t.push_str("\"😀 note\" "); *has_astral = true; }
+                else if rng.chance(1, 6) { t.push_str("\"field description\"\n  "); }
+                t.push_str(&f.name);
+                if let Some((an, at)) = &f.arg { t.push_str(&format!("({}: {}{})", an, at, if rng.chance(1, 3) && at == "Int" { " = 10" } else { "" })); }
+                t.push_str(": "); t.push_str(&ty_str(f));
+                if rng.chance(1, 10) { t.push_str("  # trailing comment"); }
+                t.push('\n');
+            }
+            t.push_str("}\n\n");
+            t
+        };
+        let mut defs: Vec<String> = vec![];
+        defs.push(render_obj(rng, &query, "type", &mut has_astral));
+        if has_mutation { defs.push(render_obj(rng, &mutation, "type", &mut has_astral)); }
+        for o in &objs { defs.push(render_obj(rng, o, "type", &mut has_astral)); }
+        if objs.iter().any(|o| o.node) { defs.push("interface Node {\n  id: ID!\n}\n\n".into()); }
+        if has_enum { defs.push(format!("{}enum Role {{\n  ADMIN\n  USER\n}}\n\n", if rng.chance(1, 2) { "\"roles\"\n" } else { "" })); }
+        if has_scalar { defs.push("scalar Date\n\n".into()); }
+        if has_input { defs.push("input Filter {\n  since: Int\n  text: String = \"x\"\n}\n\n".into()); }
+        if has_union { defs.push(format!("union SearchResult = {} | {}\n\n", objs[0].name, objs[1].name)); }
+        if rng.chance(1, 2) { defs.push("extend type Query {\n  extra: Int\n}\n\n".into()); }
+        rng.shuffle(&mut defs);
+        for (i, d) in defs.into_iter().enumerate() { let f = if i < nfiles { i } else { rng.below(nfiles) }; texts[f].push_str(&d); }
+        let schema_files: Vec<(String, String)> = chosen.iter().zip(texts).map(|(p, t)| (p.to_string(), t)).collect();
+
+        // ---- fragments and operations
+        let scalar_sel = |rng: &mut Rng, o: &GObj| -> String {
+            let mut parts = vec![];
+            for f in &o.fields { if !f.object && (f.name == "id" || rng.chance(2, 3)) {
+                parts.push(if rng.chance(1, 8) { format!("my_{}: {}", f.name, f.name) } else { f.name.clone() }); } }
+            if rng.chance(1, 5) { parts.push("__typename".into()); }
+            parts.join(if rng.chance(1, 2) { " " } else { "\n    " })
+        };
+        // fragment files: ops/frags/<type>.graphql, each with 1..2 fragments on that type
+        let mut frag_files: Vec<(String, String, Vec<(String, String)>)> = vec![];   // (path, text, [(fragment, on type)])
+        let nfrag_files = rng.range(0, 2.min(objs.len()));
+        for i in 0..nfrag_files {
+            let o = &objs[i];
+            let mut t = String::new(); let mut fr = vec![];
+            for j in 0..rng.range(1, 2) {
+                let fname = format!("{}Bits{}", o.name, if j == 0 { "".to_string() } else { j.to_string() });
+                t.push_str(&format!("fragment {} on {} {{\n    {}\n}}\n\n", fname, o.name, scalar_sel(rng, o)));
+                fr.push((fname, o.name.clone()));
+            }
+            frag_files.push((format!("ops/frags/{}.graphql", lower(&o.name)), t, fr));
+        }
+        let mut op_files: Vec<(String, String)> = vec![];
+        let mut imported_used: BTreeMap<String, Vec<(String, String)>> = BTreeMap::new();
+        let nops = rng.range(1, 3);
+        for qi in 0..nops {
+            let path = if rng.chance(1, 3) { format!("ops/sub/q{}.graphql", qi) } else { format!("ops/q{}.graphql", qi) };
+            let up = if path.starts_with("ops/sub/") { "../frags" } else { "./frags" };
+            let mut text = String::new();
+            // imports
+            let mut avail: Vec<(String, String, String)> = vec![];    // (fragment, on type, defining file)
+            for (fp, _, fr) in &frag_files {
+                if rng.chance(2, 3) {
+                    let base = fp.rsplit('/').next().unwrap();
+                    if rng.chance(1, 3) { text.push_str(&format!("#import * from \"{}/{}\"\n", up, base)); }
+                    else { text.push_str(&format!("#import {} from \"{}/{}\"\n", fr.iter().map(|x| x.0.clone()).collect::<Vec<_>>().join(", "), up, base)); }
+                    for (n, t) in fr { avail.push((n.clone(), t.clone(), fp.clone())); }
+                }
+            }
+            // a local fragment
+            let mut local: Vec<(String, String)> = vec![];
+            if rng.chance(1, 2) {
+                let o = rng.pick(&objs).clone();
+                let fname = format!("Local{}Q{}", o.name, qi);
+                local.push((fname, o.name.clone()));
+            }
+            let mut used: Vec<(String, String)> = vec![];
+            let mut sel_obj = |rng: &mut Rng, o: &GObj, depth: usize, used: &mut Vec<(String, String)>| -> String {
+                let mut sx = scalar_sel(rng, o);
+                for (n, t, f) in &avail { if *t == o.name && rng.chance(2, 3) { sx.push_str(&format!(" ...{}", n)); if !used.iter().any(|u| u.0 == *n) { used.push((n.clone(), f.clone())); } } }
+                for (n, t) in &local { if *t == o.name && rng.chance(2, 3) { sx.push_str(&format!(" ...{}", n)); } }
+                if depth < 2 {
+                    for f in &o.fields { if f.object && rng.chance(1, 2) {
+                        let sub = objs.iter().find(|x| x.name == f.ty).unwrap();
+                        let arg = if f.arg.is_some() && rng.chance(1, 2) { "(first: 3)" } else { "" };
+                        sx.push_str(&format!("\n    {}{} {{ {} }}", f.name, arg, scalar_sel(rng, sub)));
+                    } }
+                }
+                sx
+            };
+            let nq = rng.range(1, 2);
+            for oi in 0..nq {
+                let is_mut = has_mutation && rng.chance(1, 4);
+                let root = if is_mut { &mutation } else { &query };
+                let opname = format!("{}{}{}", if is_mut { "Do" } else { "Get" }, k % 7, qi * 2 + oi);
+                let mut body = String::new();
+                let mut uses_first = false;
+                for f in &root.fields {
+                    if !(rng.chance(1, 2) || body.is_empty()) { continue; }
+                    let sub = objs.iter().find(|x| x.name == f.ty).unwrap();
+                    let arg = match &f.arg { Some((an, at)) if at == "ID!" => format!("({}: \"1\")", an),
+                                             Some((an, _)) => if rng.chance(1, 2) { uses_first = true; format!("({}: $first)", an) } else { String::new() }, None => String::new() };
+                    body.push_str(&format!("  {}{} {{\n    {}\n  }}\n", f.name, arg, sel_obj(rng, sub, 0, &mut used)));
+                }
+                if has_union && !is_mut && false { body.push_str("  __typename\n"); }
+                let vars = if uses_first { "($first: Int)" } else { "" };
+                text.push_str(&format!("{} {}{} {{\n{}}}\n\n", if is_mut { "mutation" } else { "query" }, opname, vars, body));
+            }
+            for (n, t) in &local {
+                let o = objs.iter().find(|x| x.name == *t).unwrap();
+                text.push_str(&format!("fragment {} on {} {{ {} }}\n\n", n, t, scalar_sel(rng, o)));
+            }
+            let _ = used;
+            imported_used.insert(path.clone(), avail.iter().map(|(n, _, f)| (n.clone(), f.clone())).collect());   // every imported fragment is printed, used or not
+            op_files.push((path, text));
+        }
+        for (p, t, _) in frag_files { imported_used.insert(p.clone(), vec![]); op_files.push((p, t)); }
+
+        // ---- config
+        let mode = *rng.pick(&["with-loader-ts-5.0", "with-loader-ts-4.0", "standalone-ts-4.0"]);
+        let schema_out = *rng.pick(&["./generated/schema.d.ts", "./schema.d.ts", "./generated/deep/dir/schema.d.ts", "../out/types/schema.d.ts"]);
+        let mut config = String::new();
+        config.push_str("schema: \"schema/**/*.graphql\"\ndocuments: \"ops/**/*.graphql\"\nextensions:\n  nitrogql:\n    generate:\n");
+        config.push_str(&format!("      mode: {}\n      schemaOutput: {}\n", mode, schema_out));
+        if rng.chance(1, 2) { config.push_str(&format!("      resolversOutput: {}\n", rng.pick(&["./generated/resolvers.d.ts", "../out/resolvers.d.ts", "./r.d.ts"]))); }
+        if has_scalar { config.push_str("      type:\n        scalarTypes:\n          Date: string\n"); }
+        Proj { schema_files, op_files, imported_used, has_astral, config, mode }
+    }
+
+    fn read(p: &Path) -> Option<String> { fs::read_to_string(p).ok() }
+
+    /// definitions of a schema file: (identifier, header start, header end) for types, and for fields
+    fn schema_defs(text: &str) -> Vec<(String, Pos, Pos)> {
+        let mut out = vec![];
+        let doc = match parse_type_system_document(text) { Ok(d) => d, Err(_) => return out };
+        let end = |p: &Pos, name: &str| Pos { line: p.line, column: p.column + name.chars().count(), file: 0, builtin: false };
+        for d in &doc.definitions {
+            match d {
+                TD::TypeDefinition(td) => {
+                    let (pos, name) = match td {
+                        TDef::Scalar(x) => (x.position, x.name), TDef::Object(x) => (x.position, x.name), TDef::Interface(x) => (x.position, x.name),
+                        TDef::Union(x) => (x.position, x.name), TDef::Enum(x) => (x.position, x.name), TDef::InputObject(x) => (x.position, x.name),
+                    };
+                    out.push((name.name.to_string(), pos, end(&name.position, name.name)));
+                    match td {
+                        TDef::Object(x) => for f in &x.fields { out.push((f.name.name.to_string(), f.name.position, end(&f.name.position, f.name.name))); },
+                        // an interface is printed as the union of its implementers: its own fields are not printed
+                        TDef::InputObject(x) => for f in &x.fields { out.push((f.name.name.to_string(), f.name.position, end(&f.name.position, f.name.name))); },
+                        _ => {}
+                    }
+                }
+                TD::TypeExtension(TExt::Object(x)) => for f in &x.fields { out.push((f.name.name.to_string(), f.name.position, end(&f.name.position, f.name.name))); },
+                _ => {}
+            }
+        }
+        out
+    }
+
+    /// definitions of an operation file: operations give three identifiers, fragments one
+    fn op_defs(text: &str) -> Vec<(Vec<String>, String, Pos, Pos)> {
+        let mut out = vec![];
+        let doc = match parse_operation_document(text) { Ok(d) => d, Err(_) => return out };
+        for d in &doc.definitions {
+            match d {
+                XD::OperationDefinition(op) => if let Some(n) = op.name {
+                    let kind = match op.operation_type { nitrogql_ast::operation::OperationType::Query => "Query", nitrogql_ast::operation::OperationType::Mutation => "Mutation", _ => "Subscription" };
+                    out.push((vec![format!("{}Result", n.name), format!("{}Variables", n.name), format!("{}{}", n.name, kind)], n.name.to_string(), op.position, op.selection_set.position));
+                },
+                XD::FragmentDefinition(fr) => out.push((vec![fr.name.name.to_string()], fr.name.name.to_string(), fr.position, fr.selection_set.position)),
+                _ => {}
+            }
+        }
+        out
+    }
+
+    fn coq_def(ident: &str, path: &str, a: &Pos, b: &Pos) -> String {
+        format!("({}, {}, {}, {}, {}, {})", coq_str(ident), coq_str(path), coq_n(a.line as u64), coq_n(a.column as u64), coq_n(b.line as u64), coq_n(b.column as u64))
+    }
+
+    pub fn run_projects(rng: &mut Rng, bin: &Path, work: &Path, n: usize, _thorough: bool) -> CliRun {
+        let mut r = CliRun { cases: vec![], stats: vec![], direct_failures: vec![] };
+        let mut st: BTreeMap<String, u64> = BTreeMap::new();
+        fn bump_in(st: &mut BTreeMap<String, u64>, k: &str, v: u64) { *st.entry(k.to_string()).or_insert(0) += v; }
+        macro_rules! bump { ($k:expr, $v:expr) => { bump_in(&mut st, $k, $v) } }
+        let _ = fs::remove_dir_all(work);
+        fs::create_dir_all(work).unwrap();
+        let work = fs::canonicalize(work).unwrap();
+        for k in 0..n {
+            let pj = gen_project(rng, k);
+            let root = work.join(format!("p{}", k)).join("proj");
+            for (p, t) in pj.schema_files.iter().chain(pj.op_files.iter()) {
+                let fp = root.join(p); fs::create_dir_all(fp.parent().unwrap()).unwrap(); fs::write(&fp, t).unwrap();
+            }
+            fs::write(root.join("graphql.config.yaml"), &pj.config).unwrap();
+            let outp = Command::new(bin).arg("--config-file").arg("graphql.config.yaml").arg("generate").current_dir(&root).output();
+            let ok = matches!(&outp, Ok(o) if o.status.success());
+            bump!("cli_projects_run", 1);
+            bump!(&format!("cli_mode_{}", pj.mode), 1);
+            if !ok {
+                bump!("cli_generate_failed", 1);
+                if let Ok(o) = &outp {
+                    let code = o.status.code();
+                    if code != Some(1) {
+                        r.direct_failures.push(json!({"what": "nitrogql-cli generate crashed on a generated project (not a diagnostic exit)", "classes": [], "project": root.to_string_lossy(), "exit": code,
+                                                      "stderr": String::from_utf8_lossy(&o.stderr).chars().take(600).collect::<String>()}));
+                    } else if st.get("cli_generate_failed").copied().unwrap_or(0) <= 3 {
+                        eprintln!("generate failed on {}: {}", root.display(), String::from_utf8_lossy(&o.stdout).chars().take(400).collect::<String>());
+                    }
+                }
+                continue;
+            }
+            // the file store as the CLI builds it: globmatch returns the paths sorted
+            let mut sfiles: Vec<(PathBuf, String)> = pj.schema_files.iter().map(|(p, t)| (root.join(p), t.clone())).collect();
+            let mut ofiles: Vec<(PathBuf, String, String)> = pj.op_files.iter().map(|(p, t)| (root.join(p), t.clone(), p.clone())).collect();
+            sfiles.sort_by(|a, b| a.0.cmp(&b.0)); ofiles.sort_by(|a, b| a.0.cmp(&b.0));
+            let sf_term = coq_list(&sfiles, |(p, t)| format!("({}, {})", coq_str(&p.to_string_lossy()), coq_u8(t)));
+            let of_term = coq_list(&ofiles, |(p, t, _)| format!("({}, {})", coq_str(&p.to_string_lossy()), coq_u8(t)));
+            // outputs
+            let cfg: serde_yaml::Value = serde_yaml::from_str(&pj.config).unwrap();
+            let gen = &cfg["extensions"]["nitrogql"]["generate"];
+            let norm = |p: PathBuf| -> PathBuf { nitrogql_utils::normalize_path(&p) };
+            let mut outputs: Vec<(PathBuf, Option<usize>, &str)> = vec![];
+            if let Some(so) = gen["schemaOutput"].as_str() { outputs.push((root.join(so), None, "schema")); }
+            if let Some(ro) = gen["resolversOutput"].as_str() { outputs.push((root.join(ro), None, "resolvers")); }
+            let ext = match pj.mode { "with-loader-ts-5.0" => "d.graphql.ts", "with-loader-ts-4.0" => "graphql.d.ts", _ => "graphql.ts" };
+            for (j, (p, _, _)) in ofiles.iter().enumerate() { let mut q = p.clone(); q.set_extension(ext); outputs.push((q, Some(sfiles.len() + j), "operation")); }
+            for (gpath, op, okind) in outputs {
+                let mpath = PathBuf::from(format!("{}.map", gpath.to_string_lossy()));
+                let (gtext, mtext) = match (read(&gpath), read(&mpath)) { (Some(a), Some(b)) => (a, b), _ => {
+                    r.direct_failures.push(json!({"what": "generate succeeded but an expected output or its .map is missing", "classes": [], "file": gpath.to_string_lossy()})); continue; } };
+                bump!(&format!("cli_maps_{}", okind), 1);
+                let v: Value = serde_json::from_str(&mtext).unwrap_or(Value::Null);
+                let strs = |x: &Value| -> Option<Vec<String>> { x.as_array().and_then(|a| a.iter().map(|e| e.as_str().map(|z| z.to_string())).collect()) };
+                let json_ok = v["version"] == json!(3) && v["file"].is_string() && strs(&v["sources"]).is_some() && strs(&v["names"]).is_some() && v["mappings"].is_string();
+                let file = v["file"].as_str().unwrap_or("").to_string();
+                let sources = strs(&v["sources"]).unwrap_or_default();
+                let names = strs(&v["names"]).unwrap_or_default();
+                let mappings = v["mappings"].as_str().unwrap_or("").to_string();
+                // definitions printed in G
+                let mut defs: Vec<String> = vec![]; let mut ndefs = 0u64;
+                let mut hints: Vec<&str> = vec![];
+                match (okind, op) {
+                    ("schema", _) => for (p, t) in &sfiles { for (id, a, b) in schema_defs(t) { defs.push(coq_def(&id, &p.to_string_lossy(), &a, &b)); ndefs += 1; } },
+                    ("operation", Some(fi)) => {
+                        let (p, t, rel) = &ofiles[fi - sfiles.len()];
+                        for (ids, _, a, b) in op_defs(t) { for id in ids { defs.push(coq_def(&id, &p.to_string_lossy(), &a, &b)); ndefs += 1; } }
+                        for (fname, ffile) in pj.imported_used.get(rel).cloned().unwrap_or_default() {
+                            let fp = root.join(&ffile);
+                            if let Some((_, ft, _)) = ofiles.iter().find(|x| x.0 == fp) {
+                                for (ids, nm, a, b) in op_defs(ft) { if nm == fname { for id in ids { defs.push(coq_def(&id, &fp.to_string_lossy(), &a, &b)); ndefs += 1; } } }
+                            }
+                            if !hints.contains(&"unmapped-file-index-becomes-source-minus-one") { hints.push("unmapped-file-index-becomes-source-minus-one"); }
+                        }
+                    }
+                    _ => {}
+                }
+                // an astral character precedes a mapped token on its line only in schema files; operation outputs have no segment into them
+                let astral_here = pj.has_astral && okind != "operation";
+                if astral_here { hints.push("original-column-in-scalar-values-not-utf16"); }
+                bump!("cli_definitions_checked", ndefs);
+                let gnorm = norm(gpath.clone());
+                let mk = |tol_unmapped: bool, tol_scalar: bool| -> String {
+                    format!("CProj {} {} [mk_mapfile {} {} {} {} {} {} {} {} [{}] {} {}]", sf_term, of_term,
+                        coq_str(&gnorm.to_string_lossy()), coq_opt(&op, |i| coq_n(*i as u64)), coq_u8(&gtext), coq_bool(json_ok), coq_str(&file),
+                        coq_list(&sources, |x| coq_str(x)), coq_list(&names, |x| coq_str(x)), coq_str(&mappings), defs.join("; "),
+                        coq_bool(tol_unmapped), coq_bool(tol_scalar))
+                };
+                let descr = |twin: bool, hints: &Vec<&str>| json!({"kind": "project", "project": root.to_string_lossy(), "generated_file": gnorm.to_string_lossy(), "output_kind": okind,
+                    "mode": pj.mode, "map": v, "lenient_twin": twin, "failure_hints": if twin { vec![] } else { hints.clone() },
+                    "schema_files": sfiles.iter().map(|x| x.0.to_string_lossy().to_string()).collect::<Vec<_>>(),
+                    "operation_files": ofiles.iter().map(|x| x.0.to_string_lossy().to_string()).collect::<Vec<_>>()});
+                r.cases.push((mk(false, false), descr(false, &hints)));
+                if !hints.is_empty() {
+                    bump!("cli_maps_with_known_defect_hint", 1);
+                    r.cases.push((mk(hints.contains(&"unmapped-file-index-becomes-source-minus-one"), astral_here), descr(true, &hints)));
+                }
+            }
+        }
+        r.stats = st.into_iter().collect();
+        r
     }
 }
 
